@@ -307,7 +307,9 @@ def translate() -> tuple[str, dict]:
     side['rejections'] = {'rows': rej, 'ok': c13_place.rej_rows_ok(rej)}
     write_checks_idx = all(r['raised'] and r['by'] == 'index' for r in rej if r['kind'] == 'index' and r['dir']) \
         and any(r['kind'] == 'index' and r['dir'] for r in rej)
-    chk_idx = idx_cmp and write_checks_idx and c13_place.index_check_guarded(addf, ('self',))
+    add_guard = c13_place.index_check_guarded(addf, ('self',))
+    side['add_file_checks_index_before_new_file'] = add_guard
+    chk_idx = idx_cmp and write_checks_idx and add_guard
     chk_name = c13_place.name_check_ok(newf)
     max_pre = consts.get('MAX_PRELOAD')
     split_kind, split_sep, split_info = _split_site(tree)
@@ -344,6 +346,7 @@ def translate() -> tuple[str, dict]:
         'Definition g_tail_to_footer : bool := place_dest_ok g_place_table.',
         '(* FileInfo.write executed in the rejection scenarios: (directory VPK, same checksum, what is wrong, raised?, by which validation, stores executed before) *)',
         'Definition g_rej_table : list rejrow :=\n  ' + c13_place.coq_rej_rows(rej) + '.',
+        f'Definition g_add_file_checks_index_first : bool := {b(add_guard)}.',
         f'Definition g_chk_idx : bool := {b(chk_idx)}.',
         f'Definition g_chk_name : bool := {b(chk_name)}.',
         f'Definition g_ext_split : split_kind := {split_kind}{"" if split_sep is None else " " + str(split_sep)}.',
